@@ -218,8 +218,19 @@ def top_pat_variants(p):
     return ['?' + k]
 
 
-def strings_in(node):
-    return [n['str'] for n in walk(node) if n.get('k') == 'lit' and 'str' in n]
+def strings_in(node, ast=None):
+    """String literals in node; with `ast`, identifiers naming a string constant are resolved."""
+    out = [n['str'] for n in walk(node) if n.get('k') == 'lit' and 'str' in n]
+    if ast is not None:
+        for n in walk(node):
+            if n.get('k') == 'path':
+                nm = n['path'].split('::')[-1]
+                if nm.isupper() or '_' in nm and nm.upper() == nm:
+                    for (_p, c) in ast.consts.get(nm, []):
+                        e = c.get('expr') or {}
+                        if e.get('k') == 'lit' and 'str' in e:
+                            out.append(e['str'])
+    return out
 
 
 def node_panics(node):
